@@ -7,6 +7,7 @@ import (
 	"strings"
 	"testing"
 
+	"github.com/wrgl/wrgl/pkg/objects"
 	"github.com/wrgl/wrgl/pkg/ref"
 	"pgregory.net/rapid"
 
@@ -298,6 +299,27 @@ func runCLI(c Case) (o evid.Outcome, err error) {
 	head1, err := headOf(repo)
 	if err != nil {
 		return o, err
+	}
+	// another store ("another machine"): the badger repository and the harness memory store must
+	// agree on the identifier of the same content
+	{
+		db, _, closeFn, err := repo.Open()
+		if err != nil {
+			return o, fmt.Errorf("HARNESS: %v", err)
+		}
+		com, err := objects.GetCommit(db, head1)
+		closeFn()
+		if err != nil {
+			return o, fmt.Errorf("head commit unreadable: %v", err)
+		}
+		mem := stores.NewMem()
+		msum, err := ingestx.Table(mem, permuted(c.Table, c.Perm), c.Cfg2)
+		if err != nil {
+			return o, fmt.Errorf("memory-store ingest: %v", err)
+		}
+		if !bytes.Equal(msum, com.Table) {
+			return o, fmt.Errorf("`wrgl commit` on badger stored table %x, the same content ingested into a memory store (permuted rows, cfg %+v) gets %x", com.Table, c.Cfg2, msum)
+		}
 	}
 	if _, err := repo.WriteFile("data.csv", permuted(c.Table, c.Perm).CSV(delim)); err != nil {
 		return o, fmt.Errorf("HARNESS: %v", err)
